@@ -52,6 +52,18 @@ CHECKS = {
     "C14": ("mc-model", MC, "E1 product on the pending-distribution function plus E2 BFS over distribute/advance histories",
             "Distribution amount compared with min(rate*dt, excess over floor) on the full product; all distribute/advance sequences to depth 6/8 from pools above/at/below the floor keep the pool non-increasing and above the floor.",
             "alphabets only", "§4 C14"),
+    "C15": ("mc-store", MC, "explicit-state BFS (E2) over delta sequences on the real program Pool and the SDK Pool against a single-total reference",
+            "Every sequence of signed deltas (boundary magnitudes up to the i128/u128 limits, both sides) to the stated depth from boundary start totals is applied to the program's Pool (pure and impure) and to the SDK Pool on the same bytes; long/short split, total movement, failure-leaves-unchanged and cancel remainder are compared with a single u128 total.",
+            "alphabets only", "§5 C15"),
+    "C16": ("mc-store", E1, "exhaustive enumeration (E1) of the finite key space: write each key, read every key and every name-mapped accessor",
+            "Every discriminant of every configuration enum is written with sentinels through the string/enum setters of the program Market/Store; all other keys must be unchanged and the accessor named by the key (program MarketConfig model accessors and the SDK MarketModel on the same bytes) must return the sentinel.",
+            "name-derived mapping table is the oracle; values are sentinels, not all u128", "§5 C16"),
+    "C17": ("mc-store", E1, "exhaustive enumeration (E1) of all config keys/flags of a freshly initialised market (pure and impure) against name-derived DEFAULT_* constants",
+            "Market::init is executed under a stubbed clock for pure and impure token pairs; every key, flag, pool kind, amount and clock is compared with the documented default.",
+            "defaults table derived from constant names", "§5 C17"),
+    "C18": ("mc-store", MC, "explicit-state BFS (E2) over role operations on the real Store against a set-of-grants reference",
+            "All sequences of enable/disable/grant/revoke/cluster-restart/update-restart-slot over 3 addresses x 3 roles to the stated depth, from empty and capacity-edge start states; has_role/has_admin_role answers and bytes-unchanged-on-failure are compared with the reference in every state.",
+            "bounds: depth, 3 users, 3 roles", "§5 C18"),
 }
 
 NOT_YET = "no check built yet in this round (planned in DESIGN.md); not claimed"
